@@ -372,6 +372,26 @@ class Flows:
         src = r.choice(self.hops)
         return s.ev_udp(self.li, src, data)
 
+    def pipelined_tcp(self):
+        """two or three requests written back to back on one client connection (one segment): the
+        second carries a body of several KiB, so the reader's buffer is refilled while the first
+        message still waits in the proxy's queue"""
+        r, s = self.rng, self.s
+        if not s.listens[self.li]["tcp"] or not self.backends:
+            return None
+        s.ev_accept(self.li, s.ip(22), 43000 + self.next_conn)
+        cid = self.next_conn
+        self.next_conn += 1
+        chunk = b""
+        for k in range(r.choice([2, 2, 3])):
+            a, b = self.uri_pair()
+            body = bytes(r.randrange(256) for _ in range(r.choice([200, 900, 3000]))) if k == 0 else \
+                bytes(r.randrange(256) for _ in range(r.choice([3000, 5000, 9000])))
+            data, hs = self.request(r.choice(METHODS), self.service_uri(True), (s.ip(22), 5060), self.ft(a, b"p%d" % self.nid(), True),
+                                    self.ft(b, None, True), b"pl-%d" % self.nid(), proto=b"TCP", body=body, extra=[])
+            chunk += data
+        return s.ev_data(cid, chunk)
+
     def outbound_tcp(self):
         """a request routed to the TCP next hop (the proxy dials it), then requests coming BACK over that
         connection from the next hop (received-support of connections the proxy opened itself)"""
@@ -417,6 +437,9 @@ class Flows:
                 self.static_request()
             elif k == "rawresp":
                 self.raw_response()
+            elif k == "pipeline":
+                if self.pipelined_tcp() is None:
+                    self.to_service()
             elif k == "outbound":
                 if self.outbound_tcp() is None:
                     self.route_request()
